@@ -40,6 +40,9 @@ func checkC03(c *Ctx) {
 		c.Undecided("C03-R1", "package tcell", "-", "not loaded")
 		return
 	}
+	c.Rule("C03-R10", "the key matcher passes over a bare ESC entry of the table (eterm, which defines no ESC-introduced key, gets one from the control-byte loop): ESC alone stays the Alt prefix or the timed-out Esc key")
+	c.Expect("C03-R10", 1)
+	checkBareEscapeSkipped(c, p, "C03-R10")
 	db := buildDB(c, p)
 	regs, writers, names := keyRegistrars(c, p)
 	nFirst, nRepl := 0, 0
